@@ -3,6 +3,7 @@
 from __future__ import annotations
 
 import hashlib
+import os
 import json
 import time
 from dataclasses import dataclass, field
@@ -79,7 +80,7 @@ def finish(out: Outcome, tier: str, seed: int, t0: float) -> int:
             new.append(v)
     for sig, v in seen_known.items():
         print(f"KNOWN-FINDING: property={out.property_id} {sig} -- {open_sigs[sig].get('what', v.what)}")
-    rdir = ROOT / "replays"
+    rdir = (Path(os.environ["VERIF_OUT_DIR"]) if os.environ.get("VERIF_OUT_DIR") else ROOT) / "replays"
     rdir.mkdir(exist_ok=True)
     reported = set()
     for v in new:
@@ -113,7 +114,7 @@ def finish(out: Outcome, tier: str, seed: int, t0: float) -> int:
         "wall_s": round(time.time() - t0, 2),
         "violations": len(reported),
     }
-    edir = ROOT / "evidence"
+    edir = (Path(os.environ["VERIF_OUT_DIR"]) if os.environ.get("VERIF_OUT_DIR") else ROOT) / "evidence"
     edir.mkdir(exist_ok=True)
     (edir / f"{out.property_id}.json").write_text(json.dumps(ev, indent=1, default=_jsonable) + "\n")
     if reported:
